@@ -92,7 +92,7 @@ class C31(Property):
     quick_budget_s = 400
     thorough_budget_s = 1800
     min_nontrivial = 50
-    rule = ("JavaScript fragments are compositions of 20 handled and 12 defect access patterns (dot / quoted-bracket / computed "
+    rule = ("JavaScript fragments are compositions of 22 handled and 13 defect access patterns (incl. counted `for` loops) (dot / quoted-bracket / computed "
             "access, aliasing by assignment / var initialiser / parenthesis / conditional / argument / return, nested function "
             "declarations and expressions, parameter shadowing, kills, conditionals, string literals mentioning inputs, reserved "
             "words), pretty-printed with random whitespace and quote style; every pattern alone first (corpus), then random "
@@ -110,7 +110,8 @@ class C31(Property):
     ]
     assumptions = [
         "the theorems are about the generated fragment (literals, identifiers, var, assignment, member/index access, +, ?:, calls, "
-        "function declarations/expressions, return, if); other JavaScript (loops, object literals, try, this, arguments, "
+        "function declarations/expressions, return, if, counted for-loops); other JavaScript (while / for-in loops, object literals, try, this, "
+        "arguments, "
         "Object.keys, JSON.stringify of inputs) is outside the model",
         "reads of an all-digit key on inputs (inputs[0]) are not counted as reads of a field",
     ]
